@@ -123,8 +123,11 @@ def make_case(b, p, tmark, req, st, corrupt, cuts, limit):
         for (boff, ln, foff) in layout:
             if foff <= lb < foff + ln:
                 xerrby = boff + (lb - foff)
+    cuts, _, opts = cuts.partition("|")      # "sweep1|appcb=1 cbshape=1": how the callbacks are registered and called
     line = "case tmark=%s limit=%d hdr=%s body=%s cuts=%s xflags=%s xfile=%s xerrby=%d" % (
         tmark, limit, ";".join(h.hex() for h in hdr), body.hex() or "-", cuts, e["xflags"], e["xfile"].hex(), xerrby)
+    if opts:
+        line += " " + opts
     if e["mask"]:
         line += " xmask=" + ",".join("%d-%d" % m for m in e["mask"])
     return line, len(body), layout
@@ -150,6 +153,7 @@ def work(arg):
         bclass = "plain" if not multi else ("hex" if st.boundary == BOUNDARIES[0] else
                                            ("regex-metachar" if any(ch in st.boundary for ch in "+.()?*[]{}|^$\\") else "other"))
         klass = {"check": "C05", "format": "multipart" if multi else "plain", "boundary": bclass, "corrupted": corrupt is not None,
+                 "callbacks": cuts.partition("|")[2] or "default",
                  "quoted": bool(st and st.quoted), "spelling": None if not multi else [st.cr_case, st.extra, st.lead_crlf, st.ctype_first]}
         what0 = "%s missing=%s limit=%d request=%s %s%s cuts=%s" % (name, tmark, limit, req, st.name() if multi else "plain",
                                                                  " corrupt-chunk-%s" % (corrupt if not isinstance(corrupt, (list, tuple)) else "%d-twin" % corrupt[0]) if corrupt is not None else "", cuts)
@@ -159,7 +163,7 @@ def work(arg):
         n, match = int(f["n"]), int(f["match"])
         res["parts"] += n
         # partitions cutting inside a part header or inside a chunk payload
-        if cuts.startswith("sweep1"):
+        if cuts.startswith("sweep1") and "|" not in cuts:
             inpay = sum(ln - 1 for (_, ln, _) in layout if ln > 1)
             res["inner"] += n - len(layout) * 2
         res["outcomes"].add((multi, corrupt is not None, match == n))
@@ -198,6 +202,13 @@ def run(ctx):
             for j in e["covered"]:
                 for cuts in ("-", "all1", "sweep1", "k7"):
                     items.append((m, -1, req, default, j, cuts))
+            # the other ways the documented interface can be driven: the application's own callbacks registered behind the
+            # library's, and fwrite-style (size, nmemb) other than libcurl's (1, n)
+            for opts in ("appcb=1", "cbshape=1", "cbshape=2", "appcb=1 cbshape=1"):
+                for cuts in ("-", "k7", "sweep1") if opts != "cbshape=2" else ("k6", "k9"):
+                    items.append((m, -1, req, default, None, cuts + "|" + opts))
+                for j in e["covered"][:2]:
+                    items.append((m, -1, req, default, j, "k7|" + opts))
             for lim in (1, 2):
                 r2 = reqs[(name, m, lim)]
                 if r2 != req:
